@@ -126,8 +126,9 @@ def parse_bind_body(body: bytes) -> dict:
 
 def bind_ack_body(results: list[tuple[int, int, tuple]], sec_addr: str = "", assoc: int = 0x1234) -> bytes:
     sa = (sec_addr.encode() + b"\x00") if sec_addr else b""
-    frag = (5840, 4280, 0xFFFF, 1432)[next(_VARIANT) % 4]          # max_xmit_frag / max_recv_frag and the association group are the server's choice
-    b = struct.pack("<HHI", frag, frag, assoc if assoc != 0x1234 else (0x1234 + 977 * next(_VARIANT)) & 0xFFFFFFFF) + struct.pack("<H", len(sa)) + sa
+    v = len(sa) + 3 * len(results) + sum(r[0] for r in results)
+    frag = (5840, 4280, 0xFFFF, 1432)[v % 4]          # max_xmit_frag / max_recv_frag and the association group are the server's choice
+    b = struct.pack("<HHI", frag, frag, assoc if assoc != 0x1234 else (0x1234 + 977 * v) & 0xFFFFFFFF) + struct.pack("<H", len(sa)) + sa
     b += b"\x00" * (-(2 + len(sa)) % 4)
     b += struct.pack("<BBH", len(results), 0, 0)
     for res, reason, syn in results:
@@ -220,11 +221,11 @@ def parse_ept_map_request(stub: bytes) -> dict:
 def ept_map_response(towers: list[bytes], status: int = 0, announced: t.Optional[int] = None) -> bytes:
     """towers: list of tower octet strings.  NDR64 layout (MS-RPCE 2.2.1.2.5)."""
     n = len(towers) if announced is None else announced
-    v = next(_VARIANT)
+    v = len(towers) + sum(len(x) for x in towers) + status
     # entry_handle (ept_lookup_handle_t: attributes + uuid) is null or an arbitrary context handle; referent ids are arbitrary non-zero values
     handle = b"\x00" * 20 if v % 2 == 0 else struct.pack("<I", 0) + bytes((17 * v + 3 * i + 1) & 0xFF for i in range(16))
     b = handle + struct.pack("<I", len(towers))
-    b += struct.pack("<QQQ", _referent() if towers or v % 3 else 4, 0, n)
+    b += struct.pack("<QQQ", _referent(v) if towers or v % 3 else 4, 0, n)
     for i in range(len(towers)):
         b += struct.pack("<Q", (3 + i) if v % 4 < 2 else (0x20000 + 4 * i))
     for tw in towers:
@@ -278,19 +279,19 @@ def parse_get_key_request(stub: bytes) -> dict:
             "pads_zero": pad1 == b"\x00" * 4 and pad2 == b"\x00" * len(pad2)}
 
 
-_VARIANT = __import__("itertools").count()
 _REFERENTS = (0x20000, 0x20004, 1, 0xFFFFFFFFFFFFFFFF, 0x123456789ABCDEF0, 0x00020000_00000000)
 
 
-def _referent() -> int:
-    """Referent id of a non-null NDR64 unique pointer: any non-zero value (the peers rotate through a few)."""
-    return _REFERENTS[next(_VARIANT) % len(_REFERENTS)]
+def _referent(v: int) -> int:
+    """Referent id of a non-null NDR64 unique pointer: any non-zero value.  The choice is a function of the message's own
+    content (v), so the same message is always encoded the same way (replays and baselines stay comparable)."""
+    return _REFERENTS[v % len(_REFERENTS)]
 
 
 def get_key_response(envelope: bytes, hresult: int = 0) -> bytes:
     b = struct.pack("<I", len(envelope)) + b"\x00" * 4
     if envelope:
-        b += struct.pack("<QQ", _referent(), len(envelope)) + envelope + b"\x00" * (-len(envelope) % 4)
+        b += struct.pack("<QQ", _referent(len(envelope) // 2 + envelope[-1]), len(envelope)) + envelope + b"\x00" * (-len(envelope) % 4)
     else:
         b += struct.pack("<Q", 0)
     return b + struct.pack("<I", hresult)
